@@ -180,6 +180,7 @@ func c01Probes() []string {
 	for _, t := range c01Tokens {
 		p = append(p, t)
 	}
+	p = append(p, strings.Repeat("7", 100), `"`+strings.Repeat("a", 100)+`"`, strings.Repeat("a", 100), "-"+strings.Repeat("1", 70)+".5e3")
 	p = append(p, "{}", "[]", `{"a":0}`, "[0]", "true\x00", "null\x00x", "-01.5", "0e0", "-0.0", `"\\"`, `"\""`, `"\u0041"`, `"\ud834\udd1e"`, `"é𝄞"`, "1e400", "-1e400", "123456789012345678901234567890")
 	return p
 }
@@ -394,7 +395,7 @@ func densePrefix(n int) []byte {
 func c01E4(w *W, emit emitFn) {
 	_, flushAt, _ := simdjson.VerifGeometry()
 	probes := c01Probes()
-	w.Note(fmt.Sprintf("E4: %d probes with their first structural on every index %d..%d and %d..%d (flush threshold read live: %d), plain and quote-at-edge; and total length 8192±70", len(probes), flushAt-28, flushAt+82, 2*flushAt-26, 2*flushAt+174, flushAt))
+	w.Note(fmt.Sprintf("E4: %d probes with their first structural on every index %d..%d and %d..%d (flush threshold read live: %d), plain / quote-at-edge / input cut right behind the probe / almost-dense prefix; and total length 8192±70", len(probes), flushAt-28, flushAt+240, 2*flushAt-26, 2*flushAt+240, flushAt))
 	var in []byte
 	sweep := func(lo, hi int) {
 		for n := lo; n <= hi; n++ {
@@ -403,14 +404,20 @@ func c01E4(w *W, emit emitFn) {
 			}
 			pre := densePrefix(n)
 			for _, p := range probes {
-				for variant := 0; variant < 2; variant++ {
+				for variant := 0; variant < 4; variant++ {
 					in = append(in[:0], pre...)
-					if variant == 1 {
+					switch variant {
+					case 1:
 						// a string right before the probe so an opening quote sits on the edge
 						in = append(in[:len(in)-2], `"q",`...)
+					case 3:
+						// almost dense: one string element at the front (more bytes than structurals)
+						in = append([]byte(`["aaaaaaaaaaaaaaaaaaaaaaaaaaaaaaaaaaaaaaaa",`), in[1:]...)
 					}
 					in = append(in, p...)
-					in = append(in, ']')
+					if variant != 2 {
+						in = append(in, ']')
+					} // variant 2: the input ends right behind the probe (a cut document)
 					w.res.States++
 					w.res.Transitions++
 					emit(in, []byte(p), "C01-E4-flush")
@@ -421,8 +428,8 @@ func c01E4(w *W, emit emitFn) {
 			}
 		}
 	}
-	sweep(flushAt-28, flushAt+82)
-	sweep(2*flushAt-26, 2*flushAt+174)
+	sweep(flushAt-28, flushAt+240)
+	sweep(2*flushAt-26, 2*flushAt+240)
 	for total := 8192 - 70; total <= 8192+70; total++ {
 		if !w.Mine() {
 			continue
